@@ -317,6 +317,11 @@ Fixpoint insert_sorted (key : Z -> Z) (x : Z) (l : list Z) : list Z :=
 Definition dv_order_sorted (vals : list Z) : list Z :=
   fold_left (fun acc v => insert_sorted wrap64 v acc) vals [].
 
+(* search/sort.go SortGeoDistance.Value: the sort key of a hit is the shift-0 prefix-coded sortable
+   int64 of its distance (a float64 bit pattern; the distance itself comes from geo.Haversin,
+   not modelled), compared bytewise by the collector *)
+Definition distance_sort_key (dist_bits : Z) : option bytes := encode (f2i dist_bits) 0.
+
 (* ---------- NewGeoBoundingBoxSearcher (Morton path) on one document ---------- *)
 
 (* a document (shift-0 values [vals], in doc-value order) is returned by the box searcher iff it
